@@ -13,10 +13,11 @@ VARIABLES phase,   \* "build" | "run"
           way      \* (b): 1 registered in the style set, 2 add_style later, 3 passed for the call;  (a): 0
 mvars == <<vars, phase, open, way>>
 
-T(named, name, fg, bg, at) == [named |-> named, name |-> name, fg |-> fg, bg |-> bg, at |-> at]
-TagA == T(TRUE, "ta", "green", NoColour, <<>>)
-TagB == T(TRUE, "tb", NoColour, "blue", <<"bold", "underline">>)
-TagI == T(FALSE, "", "red", NoColour, <<"underline", "bold">>)
+T(named, name, sup, fg, bg, at) == [named |-> named, name |-> name, sup |-> sup, fg |-> fg, bg |-> bg, at |-> at]
+\* ta is in the style set the formatter is built with, tb is supplied by add_style() afterwards, the third is inline
+TagA == T(TRUE, "ta", "set", "green", NoColour, <<>>)
+TagB == T(TRUE, "tb", "added", NoColour, "blue", <<"bold", "underline">>)
+TagI == T(FALSE, "", "", "red", NoColour, <<"underline", "bold">>)
 Tags == {TagA, TagB, TagI}
 UnkOpen == [k |-> "unk", lit |-> <<"<", "f", "o", "o", ">">>]
 UnkClose == [k |-> "unk", lit |-> <<"<", "/", "f", "o", "o", ">">>]
@@ -24,6 +25,7 @@ QuickChars == {"1", "<", "\n"}
 FullChars == {"1", " ", "U", "<", ">", "\n"}
 
 Idle == /\ msg = <<>> /\ base = <<>> /\ amsg = <<>> /\ col = FALSE /\ j = 1 /\ stack = <<>> /\ run = <<>> /\ ntags = 0
+        /\ reg = {} /\ pend = {}
         /\ out = <<>> /\ err = FALSE /\ done = FALSE
 
 \* ---------------------------------------------------------------- (a)
@@ -32,14 +34,14 @@ Segs == {[k |-> "t", c |-> c] : c \in TextChars} \cup {[k |-> "esc"], UnkOpen, U
         \cup {[k |-> "open", tag |-> t] : t \in Tags}
 Extend(g, open2) == /\ phase = "build" /\ Len(msg) < MaxLen
                     /\ msg' = Append(msg, g) /\ amsg' = Append(amsg, g) /\ open' = open2
-                    /\ UNCHANGED <<base, col, j, stack, run, ntags, out, err, done, phase, way>>
+                    /\ UNCHANGED <<base, col, j, stack, run, ntags, reg, pend, out, err, done, phase, way>>
 Build == \/ \E g \in Segs : Extend(g, IF g.k = "open" THEN Append(open, g.tag) ELSE open)
          \/ /\ open # <<>>
             /\ \/ Extend([k |-> "close", tag |-> open[Len(open)]], SubSeq(open, 1, Len(open) - 1))
                \/ Extend([k |-> "closeany"], SubSeq(open, 1, Len(open) - 1))
 Launch == /\ phase = "build" /\ open = <<>>
           /\ \E c \in BOOLEAN : col' = c
-          /\ phase' = "run"
+          /\ phase' = "run" /\ reg' = SetNames(msg) /\ pend' = LaterTags(msg)
           /\ UNCHANGED <<msg, base, amsg, j, stack, run, ntags, out, err, done, open, way>>
 NextA == Build \/ Launch \/ (phase = "run" /\ Step /\ UNCHANGED <<phase, open, way>>)
 SpecA == InitA /\ [][NextA]_mvars
@@ -53,7 +55,7 @@ OrderedAttrs == <<"bold", "dark", "italic", "underline", "blink", "reverse", "co
 AllAttrSets == SUBSET Attrs
 FewAttrSets == {{}, Attrs} \cup {{a} : a \in Attrs} \cup {{"bold", "underline"}, {"dark", "italic", "blink"}}
 SeqOfSet(S) == SelectSeq(OrderedAttrs, LAMBDA a : a \in S)
-StyleOf(fg, bg, S) == T(TRUE, "ts", fg, bg, SeqOfSet(S))
+StyleOf(fg, bg, S, w) == T(TRUE, "ts", IF w = 1 THEN "set" ELSE IF w = 2 THEN "added" ELSE "", fg, bg, SeqOfSet(S))
 One == [k |-> "t", c |-> "1"]
 Two == [k |-> "t", c |-> "2"]
 \* ways 1, 2: <ts>1</ts>2 ;  way 3: format(m, style=S) on m = "1" (template 1) and m = "1<tb>2</tb>1" (template 2)
@@ -64,7 +66,7 @@ InitB == /\ phase = "run" /\ open = <<>>
          /\ \E fg \in Colours, bg \in Colours, S \in AttrSets, w \in 1..3, tmpl \in 1..2 :
                /\ (w \in {1, 2} => tmpl = 1)
                /\ way = w
-               /\ Start(MsgOf(w, StyleOf(fg, bg, S), tmpl), IF w = 3 THEN <<StyleOf(fg, bg, S)>> ELSE <<>>, TRUE)
+               /\ Start(MsgOf(w, StyleOf(fg, bg, S, w), tmpl), IF w = 3 THEN <<StyleOf(fg, bg, S, w)>> ELSE <<>>, TRUE)
 NextB == Step /\ UNCHANGED <<phase, open, way>>
 SpecB == InitB /\ [][NextB]_mvars
 \* the style under test is the first open tag (ways 1, 2) or the base style (way 3)
